@@ -76,6 +76,20 @@ Theorem C09_source_output_stage_sdss2eq : forall cl ce,
   option_map Ok (sdss2eq_out_src atan2 atbound2 cl ce (vx v) (vy v) (vz v)) = Some (sdss2eq_R cl ce).
 Proof. exact sdss2eq_out_src_ok. Qed.
 
+(* eq2xyz / xyz2eq bodies (copy, deg2rad, stomp offset; stomp offset, rad2deg, atbound or 2 pi wrap), translated from the
+   source for each (units, stomp) setting, and the error class of the range checks *)
+Theorem C09_source_eq2xyz_arguments : forall (deg stomp : bool) (ra dec : R),
+  thetaphi2xyz_xyz_src (fst (eq2xyz_args_src deg stomp ra dec)) (snd (eq2xyz_args_src deg stomp ra dec))
+  = Some (eq2xyz_R deg stomp ra dec).
+Proof. exact eq2xyz_args_ok. Qed.
+
+Theorem C09_source_xyz2eq_body : forall (deg stomp : bool) (v : vec),
+  xyz2eq_post_src (fun x lo hi => atbound atb_fuel x (lo, hi)) deg stomp (lon_of v) (lat_of v) = xyz2eq_R deg stomp v.
+Proof. exact xyz2eq_post_ok. Qed.
+
+Theorem C09_source_range_error_class : sdss_range_err = EValue.
+Proof. exact sdss_range_err_is. Qed.
+
 (* ---------------------------------------------------------------- the six wrappers by name *)
 Theorem C09_wrapper_selectors :
   sel_eq2gal = 1%nat /\ sel_gal2eq = 2%nat /\ sel_eq2ec = 3%nat /\ sel_ec2eq = 4%nat /\ sel_ec2gal = 5%nat /\ sel_gal2ec = 6%nat.
